@@ -828,7 +828,10 @@ F_C13_step(cfg, pre, post) ==
     LET rn == {a \in IdxOf(post, "pickind") : post.steps[a].f = 1}
     IN Chk("C13.patience-sampled-at-arrival", \A a \in IdxOf(post, "pat") :
              LET s == post.steps[a]
-             IN IsLive(post, s.i) /\ CuOf(post, s.i).loc = s.n /\ CuOf(post, s.i).arr = post.now
+             \* (a customer that starts service on arrival and is pre-empted later in the same event no longer
+             \*  reneges - repair of F8 - so its date is reset; found by family `ppren` on the unchanged tree)
+             IN (IsLive(post, s.i) /\ CuOf(post, s.i).loc = s.n /\ CuOf(post, s.i).arr = post.now
+                 /\ ~(\E b \in IdxOf(post, "preempt") : (b > a /\ post.steps[b].i = s.i)))
                 => CuOf(post, s.i).rdate = post.now + s.y)
        \cup Chk("C13.patience-fixed-at-arrival", \A j \in DOMAIN pre.cu :
              \* the reneging date set at arrival does not move while the customer waits there (whatever its class becomes)
@@ -1087,6 +1090,12 @@ F_C20_step(cfg, pre, post) ==
              /\ (\A a \in DOMAIN post.recs : RecOk(post.recs[a], post.now))
              /\ post.ev.date = MinDateOf(pre) /\ post.now = post.ev.date)
          \cup Chk("C20.records-are-decimals", \A a \in DOMAIN post.recs : post.recs[a].dec)
+         \* the horizon is a date like any other: in exact mode it is the decimal the caller wrote, so an event
+         \* whose exact date equals it coincides with it and is not executed (seeded change C20e: horizon taken
+         \* from the float's binary expansion, 1.1 -> 1.100000000000000088...)
+         \cup (IF cfg.stop = "time"
+               THEN Chk("C20.event-coinciding-with-horizon-not-executed", post.ev.date < cfg.T)
+               ELSE {})
 
 ----------------------------------------------------------------------------
 (* C19 processor sharing: rate min(1, R/k), at most `capacity` sharing, FCFS line, exit when the   *)
